@@ -352,6 +352,24 @@ Proof. intros G. unfold touch_metadata. destruct (kidx_storable k); [apply good_
 Lemma good_save_flat w ws k u : good w -> good (save_flat w ws k u).
 Proof. intros G. unfold save_flat. destruct (_ && _); [apply good_set_flat; exact G | exact G]. Qed.
 
+Lemma good_set_links w ws l : good w -> good (set_links w ws l).
+Proof. apply good_ext; try reflexivity; try lia. apply same_ids_E. reflexivity. Qed.
+
+Lemma good_save_node w ws par k u : good w -> good (save_node w ws par k u).
+Proof.
+  intros G. unfold save_node, save_link. pose proof (good_save_flat w ws k u G) as G1.
+  destruct (kidx_storable k); [|exact G1]. destruct (existsb _ _); [exact G1 | apply good_set_links; exact G1].
+Qed.
+
+Lemma save_node_facts w ws par k u :
+  n (save_node w ws par k u) = n w /\ fresh (save_node w ws par k u) = fresh w /\ E (save_node w ws par k u) = E w
+  /\ dead (save_node w ws par k u) = dead w /\ R (save_node w ws par k u) = R w.
+Proof.
+  unfold save_node, save_link, save_flat. destruct (kidx_storable k); simpl.
+  - destruct (negb _); simpl; destruct (existsb _ _); simpl; repeat split; reflexivity.
+  - repeat split; reflexivity.
+Qed.
+
 Lemma get_entity_fresh w ws u : fresh (fst (get_entity w ws u)) = fresh w /\ n (fst (get_entity w ws u)) = n w.
 Proof.
   unfold get_entity, find_in.
@@ -406,12 +424,12 @@ Proof.
   - cbn [fst].
     pose proof (good_insert w2 ws k u (n w) d props G2 Hxn Hal S4 S1 S2 S3 Hins) as G3.
     set (w3 := upd (set_R w2 ws k d) (n w) (fun r => with_reg r props)) in *.
-    pose proof (good_touch (save_flat w3 ws k u) ws k u (good_save_flat w3 ws k u G3)) as G4.
-    destruct (memb (n w) (ech (E (touch_metadata (save_flat w3 ws k u) ws k u) par))); [exact G4|].
+    pose proof (good_touch (save_node w3 ws par k u) ws k u (good_save_node w3 ws par k u G3)) as G4.
+    destruct (memb (n w) (ech (E (touch_metadata (save_node w3 ws par k u) ws k u) par))); [exact G4|].
     apply good_kill; [exact G4|]. intros e [<-|[]].
     unfold touch_metadata. destruct (kidx_storable k).
-    + rewrite (proj2 (get_entity_fresh (save_flat w3 ws k u) ws u)). unfold save_flat. destruct (_ && _); simpl; exact Hxn.
-    + unfold save_flat. destruct (_ && _); simpl; exact Hxn.
+    + rewrite (proj2 (get_entity_fresh (save_node w3 ws par k u) ws u)). rewrite (proj1 (save_node_facts w3 ws par k u)). simpl; exact Hxn.
+    + rewrite (proj1 (save_node_facts w3 ws par k u)). simpl; exact Hxn.
   - cbn [fst].
     assert (G2' : good (if rollback c then upd w2 par (fun r => with_ch r (remove_one (n w) (ech r)) (remove_one (n w) (epgs r))) else w2)).
     { destruct (rollback c); [apply good_upd_ch; [intros r; apply with_ch_ids | exact G2] | exact G2]. }
@@ -428,8 +446,8 @@ Proof.
   destruct (insert_once _ _ u x) as [d|]; cbn [fst].
   - match goal with |- fresh (if ?b then ?a else kill ?a ?l) = _ => assert (Hk : fresh (if b then a else kill a l) = fresh a) by (destruct b; reflexivity) end.
     rewrite Hk. unfold touch_metadata. destruct (kidx_storable k).
-    + rewrite (proj1 (get_entity_fresh _ ws u)). unfold save_flat. destruct (_ && _); simpl; congruence.
-    + unfold save_flat. destruct (_ && _); simpl; congruence.
+    + rewrite (proj1 (get_entity_fresh _ ws u)). rewrite (proj1 (proj2 (save_node_facts _ ws par k u))). simpl; congruence.
+    + rewrite (proj1 (proj2 (save_node_facts _ ws par k u))). simpl; congruence.
   - match goal with |- fresh (if ?b then ?a else kill ?a ?l) = _ => assert (Hk : fresh (if b then a else kill a l) = fresh a) by (destruct b; reflexivity) end.
     rewrite Hk. destruct (rollback c); simpl; congruence.
 Qed.
@@ -533,7 +551,7 @@ Qed.
 Lemma good_sweep w ws k : good w -> good (sweep w ws k).
 Proof.
   intros G. unfold sweep. pose proof (good_sweep_R w ws k G) as G1.
-  destruct (kidx_storable k); [apply good_set_flat; exact G1 | exact G1].
+  destruct (kidx_storable k); [apply good_set_links, good_set_flat; exact G1 | exact G1].
 Qed.
 
 Lemma with_props_ids r p : euid (with_props r p) = euid r /\ ekind (with_props r p) = ekind r /\ ews (with_props r p) = ews r /\ ereg (with_props r p) = ereg r.
@@ -558,7 +576,7 @@ Lemma good_clear_children w o : good w -> good (clear_children w o).
 Proof.
   intros G. unfold clear_children. apply good_fold; [|exact G]. intros w0 x G0.
   destruct (kind_eqb (ekind (E w0 x)) KPG); [apply good_drop_child; exact G0|].
-  apply good_set_flat. apply good_drop_child. apply good_scrub_groups. exact G0.
+  unfold drop_node_links, del_link. apply good_set_links, good_set_links, good_set_flat. apply good_drop_child. apply good_scrub_groups. exact G0.
 Qed.
 
 Lemma good_step c w a : good w -> good (fst (step c w a)).
@@ -582,7 +600,7 @@ Proof.
       destruct (construct c w0 a KPG 4 obj uid 0 ps) as [[w2 o] y] end. exact G2.
   - destruct (Nat.ltb e (n w) && alive w e && Nat.ltb target (n w) && alive w target); [apply good_do_copy; exact G | exact G].
   - match goal with |- context [if ?b then _ else _] => destruct b end; [|exact G]. cbn [fst].
-    apply good_sweep. apply good_set_flat. apply good_upd_ch; [intros r; apply with_ch_ids|].
+    apply good_sweep. unfold drop_node_links, del_link. apply good_set_links, good_set_links, good_set_flat. apply good_upd_ch; [intros r; apply with_ch_ids|].
     destruct (kind_eqb (ekind (E w e)) KObject); [apply good_clear_children; exact G | exact G].
   - match goal with |- context [if ?b then _ else _] => destruct b eqn:Eb end; [|exact G]. cbn [fst].
     apply good_kill; [exact G|]. intros e He. apply andb_true_iff in Eb as [Eb _].
